@@ -165,3 +165,22 @@ func VerifC29Headers() {
 	verifAssert(verifStrEq(generateCanonicalHeaders(r, signed), want), "the canonical headers differ from the ones the SDK signed (whitespace)")
 	verifAssert(generateSignedHeaders(r, signed) == "host;x-amz-content-sha256;x-amz-date;x-amz-meta-a", "signed header list differs")
 }
+
+// VerifC29TwoNames: two parameter names, one a prefix of the other (the order
+// of such names is the same raw and encoded, so the known ordering finding does
+// not apply).
+func VerifC29TwoNames() {
+	k1 := "a"
+	k2 := "a" + verifKeyBytes("suffix", 1)
+	vals := url.Values{}
+	vals.Add(k2, "2")
+	vals.Add(k1, "1")
+	r := &http.Request{Method: "GET", Host: "s3.example", Header: http.Header{}, URL: &url.URL{Path: "/bucket/k", RawQuery: vals.Encode()}}
+	want := verifSpecEncode(k1) + "=1&" + verifSpecEncode(k2) + "=2"
+	verifCover("two-names")
+	if verifNative() {
+		verifAssert(verifNativeAccepts("/bucket/k", vals.Encode(), nil), "the canonical query string differs from the one the SDK signed (two names)")
+		return
+	}
+	verifAssert(verifStrEq(generateCanonicalQueryString(r), want), "the canonical query string differs from the one the SDK signed (two names)")
+}
